@@ -599,6 +599,21 @@ int main() {
       }
       run.opCard(node('X', { node('P', { range(22) }), node('P', { range(22) }), node('P', { range(22) }) }));
       run.opCard(node('X', { node('P', { range(16) }), node('P', { range(16) }), node('P', { range(16) }), node('P', { range(16) }) }));
+      // the division test of SDDecartian::UpdateSize is `product <= SET_INFINITY` at every factor (since 9d0a596; before it was
+      // order dependent: {1,2,3}xB(X26) reported SET_INFINITY, C15.pinned_product_size_order_counterexample):
+      // B(X26)x{1,2,3} and {1,2,3}xB(X26) both report their 201326592 members (C15.card_exact_of_small), {1}xB(X27) its 2^27;
+      // {1,2}xB(X27) = 2^28 = SET_INFINITY + 1 and {1,2,3}xB(X27) saturate in either order (C15.card_saturates);
+      // B(X29), B(X30) report 2^29, 2^30 > SET_INFINITY un-saturated (C15.card_exact)
+      run.opCard(node('X', { range(2), node('P', { range(27) }) }));
+      run.opCard(node('X', { node('P', { range(27) }), range(2) }));
+      run.opCard(node('X', { range(3), node('P', { range(27) }) }));
+      run.opCard(node('X', { node('P', { range(27) }), range(3) }));
+      run.opCard(node('X', { node('P', { range(14) }), range(1), node('P', { range(13) }), range(2) }));
+      run.opCard(node('X', { node('P', { range(26) }), range(3) }));
+      run.opCard(node('X', { range(3), node('P', { range(26) }) }));
+      run.opCard(node('X', { range(1), node('P', { range(27) }) }));
+      run.opCard(node('P', { range(29) }));
+      run.opCard(node('X', { node('P', { range(5) }), range(0), node('P', { range(40) }) }));
     }
     // IsSubsetOrEq / Contains with a lazy left operand: first element missing, a later one missing, none missing
     const Ex p12 = node('P', { node('S', { num(1), num(2) }) });
